@@ -37,6 +37,16 @@ Theorem diff_characterisation :
 Proof. exact DiffFacts.diff_characterisation. Qed.
 Print Assumptions diff_characterisation.
 
+(** no path is mentioned twice by a report: every path belongs to at most one entry
+    (and no entry is repeated) *)
+Theorem diff_mentions_each_path_once :
+  forall (P D : Type) (peqb : P -> P -> bool) (deqb : D -> D -> bool) (ple : P -> P -> bool),
+  (forall x y, peqb x y = true <-> x = y) -> (forall x y, deqb x y = true <-> x = y) ->
+  forall l r : state P D, NoDup (keys l) -> NoDup (keys r) ->
+  NoDup (mentions (diff peqb deqb ple (Some l) r)).
+Proof. exact diff_mentions_nodup. Qed.
+Print Assumptions diff_mentions_each_path_once.
+
 (** applying the report to the left path set yields exactly the right path set *)
 Theorem C18_diff_apply :
   forall (P D : Type) (peqb : P -> P -> bool) (deqb : D -> D -> bool) (ple : P -> P -> bool),
